@@ -403,8 +403,11 @@ def oracle_c07(ctx, shape, info, rows_by_phase, durations, opts, df, sysobj):
         ttot = Sum(list(durations.values()))
         for key, lab in (("pwr", "average-power"), ("loss", "average-loss"), ("eff", "average-efficiency")):
             ref = Sum([phase_tot[p][key] * durations[p] for p in durations])
+            if isinstance(avg.get(key), str):
+                ctx.fail(lab + "=duration-weighted-mean", info={"row": "System average", "cell": avg.get(key)})
+                continue
             ctx.check(lab + "=duration-weighted-mean", Eq(avg[key] * ttot, ref), info={"row": "System average"})
-        if opts.get("energy"):
+        if opts.get("energy") and not isinstance(avg.get("energy"), str) and not isinstance(avg.get("pwr"), str):
             ctx.check("average-energy=power*24", Eq(avg["energy"], avg["pwr"] * 24.0), info={"row": "System average"})
             ctx.check("phase-energies-add-up-to-average-energy",
                       Eq(Sum([phase_tot[p]["energy"] for p in durations]), avg["energy"]), info={"row": "System average"})
